@@ -10,7 +10,8 @@ WVal — the value domain of deserialized WAMP messages (what `json.loads` / `ms
   in dict order); `dictNS` is a dict that has at least one non-`str` key (only the str-keyed part is
   retained: every consumer either rejects such a dict outright or looks up string keys only);
 * `other` stands for any other Python object a binary serializer can produce (Decimal, datetime, CBORTag,
-  set, …): the code under verification only ever asks such a value for its type and its truthiness.
+  set, …): the code under verification only ever asks such a value for its type, its truthiness and (REGISTER's
+  `force_reregister in [True, False, None]`) whether it compares equal to `True` / `False` (`eqb`).
 -/
 namespace Abverif.Wamp
 
@@ -32,7 +33,7 @@ inductive WVal
   | list (xs : List WVal)
   | dict (kvs : List (Str × WVal))
   | dictNS (kvs : List (Str × WVal))
-  | other (tyname : Str) (truthy : Bool)
+  | other (tyname : Str) (truthy : Bool) (eqb : Option Bool)
   deriving Inhabited
 
 abbrev Dict := List (Str × WVal)
@@ -64,13 +65,14 @@ def truthy : WVal → Bool
   | list xs => !xs.isEmpty
   | dict kvs => !kvs.isEmpty
   | dictNS _ => true
-  | other _ t => t
+  | other _ t _ => t
 
 /-- `v == True` in Python (bool True, int 1, float 1.0) -/
 def eqTrue : WVal → Bool
   | bool b => b
   | int i => i == 1
   | float r => floatIsOne r
+  | other _ _ (some b) => b
   | _ => false
 
 /-- `v == False` in Python (bool False, int 0, float 0.0 / -0.0) -/
@@ -78,6 +80,7 @@ def eqFalse : WVal → Bool
   | bool b => !b
   | int i => i == 0
   | float r => floatIsZero r
+  | other _ _ (some b) => !b
   | _ => false
 
 end WVal
@@ -103,7 +106,7 @@ def WVal.beq : WVal → WVal → Bool
   | .list a, .list b => beqL a b
   | .dict a, .dict b => beqD a b
   | .dictNS a, .dictNS b => beqD a b
-  | .other a s, .other b t => a == b && s == t
+  | .other a s e, .other b t f => a == b && s == t && e == f
   | _, _ => false
 def beqL : List WVal → List WVal → Bool
   | [], [] => true
